@@ -184,8 +184,9 @@ Qed.
 Lemma tok_last_snoc ks c : ~ In TOKEN (map khead ks) -> tok_last (ks ++ [c]).
 Proof.
   induction ks as [|k ks IH]; simpl; [auto|]. intros Hn.
-  destruct (ks ++ [c]) as [|k2 ks2] eqn:E; [exact I|].
-  split; [intros E2; apply Hn; now left|]. rewrite <- E. apply IH. intros H. apply Hn. now right.
+  assert (IH' := IH (fun H => Hn (or_intror H))).
+  destruct (ks ++ [c]) as [|k2 ks2]; [exact I|].
+  split; [intros E2; apply Hn; now left | exact IH'].
 Qed.
 
 Lemma last_is_tok_in ks :
@@ -198,7 +199,7 @@ Proof.
 Qed.
 
 Lemma lit_head_not_tok k : key_ok (nkey k) -> nkey k <> tok -> khead k <> TOKEN.
-Proof. intros Hk Hn E. apply Hn. now apply key_ok_tok_head. Qed.
+Proof. intros Hk Hn E. apply Hn. exact (proj1 (key_ok_tok_head k Hk) E). Qed.
 
 (* ------------------------------------------------------------------ *)
 (* _make_route: pieces, chain, mount                                    *)
@@ -240,7 +241,7 @@ Lemma pieces_aux_spec route : forall acc fl,
 Proof.
   induction route as [|c r IH]; intros acc fl Hacc; simpl.
   - destruct acc as [|a acc']; simpl.
-    + repeat split; auto. intros _ H. contradiction.
+    + repeat split; auto; try (intros _ H; contradiction).
     + rewrite app_nil_r. repeat split; auto; try (intros; discriminate).
       constructor; [|constructor]. split.
       * intros E. apply (f_equal (@length N)) in E. rewrite app_length in E. simpl in E. lia.
